@@ -188,7 +188,11 @@ class Ref:
                 for k, ev in enumerate(evs):
                     tag = child_tag(rec.tag, rec.cid, 0 if same else k)
                     try:
-                        r = self._send(EvI(ev, tag, (), {"tag": tag}))
+                        if ev.startswith("="):
+                            self.value = self.m.state(ev[1:]).val
+                            r = None
+                        else:
+                            r = self._send(EvI(ev, tag, (), {"tag": tag}))
                     except Exception as e:
                         self.nested_returns.append((rec.cid, ev, tag, ("EXC", e)))
                         raise
